@@ -1,8 +1,23 @@
 """Writes /verif/MANIFEST.json from the table below (single source of truth for the interface)."""
-import json, os
+import json, subprocess, os
 V = os.path.dirname(os.path.dirname(os.path.abspath(__file__)))
 props = [json.loads(l) for l in open(os.path.join(V, "properties.jsonl"))]
 import glob
+
+def _fix_commits():
+    try:
+        out = subprocess.run(["git", "-C", "/repo", "log", "--format=%h %s", "--grep=^fix:"], capture_output=True, text=True).stdout
+        return [l.strip() for l in out.splitlines() if l.strip()]
+    except Exception:
+        return []
+
+_kf = json.load(open("/verif/known_findings.json"))
+NOTES = ("Technique: machine-checked proof in Lean 4 (theorems about models of cog, models tied to /repo on every run by regenerated facts "
+         "and model/implementation correspondence). %d recorded known findings (known_findings.json: id, regex over the failing row, pinned input) and %d fixed entries. "
+         "Unguarded `fix:` commits in /repo (each minimal, suite green): %s. seeded/: %s; benign/: behaviour-preserving refactors that must stay quiet."
+         % (len(_kf.get("findings", [])), len(_kf.get("fixed", [])), "; ".join(_fix_commits()) or "see known_findings.json",
+            "property-breaking changes by independent agents with the check that catches each (seeded/RESULTS.tsv)"))
+
 CHECKS = {}
 for f in sorted(glob.glob(os.path.join(V, "checks", "*.meta.json"))):
     m = json.load(open(f))
@@ -36,7 +51,7 @@ m = {
               "kind_free_text": "Lean 4 models + theorems (lake build, #print axioms audit), Go harness compiled into cog via overlay for correspondence and oracle, Python orchestration"}],
  "checks": checks,
  "not_applicable": na,
- "notes": "fix: commits in /repo: e5ce378 (orderedmap.Remove). known_findings.json lists recorded findings.",
+ "notes": NOTES,
 }
 json.dump(m, open(os.path.join(V, "MANIFEST.json"), "w"), indent=1)
 print("claimed:", [c["property_id"] for c in checks])
